@@ -7,6 +7,7 @@ import (
 	"fmt"
 	"math"
 	"strconv"
+	"strings"
 	"testing"
 	"time"
 
@@ -166,6 +167,17 @@ func refValue(v float64, prec int) string {
 	return strconv.FormatFloat(v, 'f', prec, 64)
 }
 
+// refValues are the acceptable renderings of a bound: the exact fixed-precision rendering, and - for
+// a bound that renders as a negative zero ("-0.000") - also the same digits without the sign: -0 and
+// +0 are the same bound, and the property does not say which spelling of zero is used.
+func refValues(v float64, prec int) []string {
+	s := refValue(v, prec)
+	if strings.HasPrefix(s, "-") && strings.Trim(s, "-0.") == "" {
+		return []string{s, s[1:]}
+	}
+	return []string{s}
+}
+
 func refDuration(d time.Duration) string {
 	if d == time.Duration(math.MaxInt64) {
 		return "infinity"
@@ -249,7 +261,15 @@ func run(c Case) (pbt.Outcome, error) {
 				want := fmt.Sprintf("%s.%s-%s", name, refValue(p.Lo, prec), refValue(p.Hi, prec))
 				if g, ok := expectOne("ReportHistogramValueSamples", b); ok {
 					names[i] = g.name
-					if g.method != "Inc" || g.name != want || g.i != op.Samples[i%len(op.Samples)] {
+					nameOK := false
+					for _, lo := range refValues(p.Lo, prec) {
+						for _, hi := range refValues(p.Hi, prec) {
+							if g.name == fmt.Sprintf("%s.%s-%s", name, lo, hi) {
+								nameOK = true
+							}
+						}
+					}
+					if g.method != "Inc" || !nameOK || g.i != op.Samples[i%len(op.Samples)] {
 						errs.Addf("value bucket [%v,%v] prec %d -> %s(%q,%d), want Inc(%q,%d)", p.Lo, p.Hi, prec, g.method, g.name, g.i, want, op.Samples[i%len(op.Samples)])
 					}
 				}
